@@ -408,6 +408,16 @@ class ExprMixin:
             return SV(f(a.term, b.term), T.STR)
         if a.ty.kind == "list" and b.ty.kind == "list" and isinstance(op, ast.Add):
             return self.list_concat(a, b, line)
+        if a.ty.kind == "set" and b.ty.kind == "set" and isinstance(op, (ast.Sub, ast.BitOr, ast.BitAnd)):
+            # set algebra, pointwise on the characteristic functions
+            a2, b2, t = self.unify(a, b, line)
+            ks = self.w.sort(t.args[0])
+            k = z3.Const(f"sk${len(self.binders)}_{line}", ks)
+            x = z3.Select(a2.term, k) if a2.term is not None else z3.BoolVal(False)
+            y = z3.Select(b2.term, k) if b2.term is not None else z3.BoolVal(False)
+            body = z3.And(x, z3.Not(y)) if isinstance(op, ast.Sub) else (z3.Or(x, y) if isinstance(op, ast.BitOr)
+                                                                         else z3.And(x, y))
+            return SV(z3.Lambda([k], body), t, fresh=True)
         if a.ty.kind == "opaque" or b.ty.kind == "opaque" or \
                 (a.ty.kind == "opt" and a.ty.args[0].kind == "opaque") or \
                 (b.ty.kind == "opt" and b.ty.args[0].kind == "opaque"):
